@@ -249,6 +249,30 @@ func (propC15) Gen(r *Rng, idx int, tier string) *Scenario {
 			}
 		}
 	}
+	if rr := r.Fork("reread"); rr.Chance(1, 8) {
+		// a configuration file is read, rewritten by someone else - to the same
+		// length, within the granularity of the file system's time stamps - and read
+		// again through the IniParser the program kept
+		a, b := genIniForDecl(rr, sc.Decl, false), genIniForDecl(rr, sc.Decl, false)
+		for len(a) < len(b) {
+			a += "\n"
+		}
+		for len(b) < len(a) {
+			b += "\n"
+		}
+		first := Op{Kind: "iniread", File: "conf/re.ini", Data: BStr(a), Rewrite: true}
+		second := Op{Kind: "iniread", File: "conf/re.ini", Data: BStr(b), Rewrite: true, AsDefaults: rr.Chance(1, 4)}
+		at := rr.Intn(len(sc.Ops) + 1)
+		ops := append(append(append([]Op{}, sc.Ops[:at]...), first), sc.Ops[at:]...)
+		at2 := at + 1 + rr.Intn(len(ops)-at)
+		sc.Ops = append(append(append([]Op{}, ops[:at2]...), second), ops[at2:]...)
+	}
+	if cr := r.Fork("ownerr"); cr.Chance(1, 8) {
+		// commands that fail, every time they are run, with the very same error value
+		// (a program's package-level `var errX = &flags.Error{...}`)
+		sc.Callee = []CalleeFault{{Kind: "execute", Nth: -1, ID: 100 + cr.Intn(900),
+			Form: cr.Pick([]string{"", "flags:marshal", "flags:unknown", "flags:required", "wrap:marshal", "flags:marshal"})}}
+	}
 	k := 6
 	if tier == "thorough" {
 		k = 16
@@ -525,6 +549,7 @@ func (propC15) Judge(sc *Scenario) *Verdict {
 	// request, a second time right away gives the same bytes / the same list.
 	if v.OK && len(sc.Scheds) > 0 {
 		var cands []int
+		ownErr := map[int]bool{}
 		for i, op := range sc.Ops {
 			switch {
 			case op.Kind == "help" || op.Kind == "man" || op.Kind == "iniwrite":
@@ -537,6 +562,12 @@ func (propC15) Judge(sc *Scenario) *Verdict {
 				// help request, whose text shows current values, nor a count of positional
 				// arguments, which a reused parser keeps adding up) is rejected with the same
 				// words when it is handed in again
+				cands = append(cands, i)
+			case op.Kind == "parse" && baseOut != nil && i < len(baseOut.Ops) && baseOut.Ops[i].Injected != 0 && len(sc.Callee) == 1 && sc.Callee[0].Nth < 0 && sc.Callee[0].Kind == "execute" &&
+				!(i > 0 && sc.Ops[i-1].Kind == "setenv" && sc.Ops[i-1].Key == "GO_FLAGS_COMPLETION"):
+				// the line was accepted and its command failed with the error value it fails
+				// with every time: handed in again, the same words come back
+				ownErr[i] = true
 				cands = append(cands, i)
 			}
 		}
@@ -558,6 +589,9 @@ func (propC15) Judge(sc *Scenario) *Verdict {
 				}
 				pa, pb := proj(a), proj(b)
 				ended := a.Panic != "" || a.Exit || a.Budget || a.Skipped || b.Skipped || a.Inconclusive || b.Inconclusive
+				if ownErr[k] && (a.Injected == 0 || a.Injected != b.Injected) {
+					ended = true // the second evaluation did not get as far as the command (a reused parser remembers)
+				}
 				for j := range pa {
 					if !ended && pa[j] != pb[j] {
 						field := strings.SplitN(pa[j], "=", 2)[0]
@@ -567,6 +601,43 @@ func (propC15) Judge(sc *Scenario) *Verdict {
 						break
 					}
 				}
+			}
+		}
+	}
+	// fresh-IniParser twin: what a file means is a function of its bytes; read
+	// through an IniParser that has read the file before (when it had other
+	// contents of the same length) it means the same as through a new one.
+	if v.OK && len(sc.Scheds) > 0 {
+		sc9 := *sc
+		sc9.Ops = nil
+		n := 0
+		for _, op := range sc.Ops {
+			if op.Kind == "iniread" && op.File != "" {
+				if n > 0 {
+					sc9.Ops = append(sc9.Ops, Op{Kind: "newini"})
+				}
+				n++
+			}
+			sc9.Ops = append(sc9.Ops, op)
+		}
+		if n > 1 {
+			o := Execute(&sc9, sc.Scheds[0])
+			v.Evals++
+			v.stat("twin.file-reread-through-a-new-IniParser")
+			if o.HarnessPanic != "" {
+				return harnessTrouble(v, o.HarnessPanic)
+			}
+			o2 := *o
+			o2.Ops = nil
+			for _, r := range o.Ops {
+				if r.Op != "newini" {
+					o2.Ops = append(o2.Ops, r)
+				}
+			}
+			if field, cls, a, b, differs := diff(c15Observable(&o2)); differs {
+				v.OK = false
+				v.Class = "c15:file-reread-depends-on-earlier-read:" + cls
+				v.Msg = fmt.Sprintf("a file was read, rewritten (same length, same time stamp) and read again through the same IniParser; with a new IniParser for the second read the history gives a different %s:\n  kept IniParser: %s\n  new IniParser:  %s", field, a, b)
 			}
 		}
 	}
